@@ -360,7 +360,12 @@ def _thin_task(T_values, strides):
                 for on in itertools.product((False, True), repeat=T):
                     det = PhasorDetector(name="ph", wave_characters=(WaveCharacter(frequency=1.0),), dft_subsample=stride, switch=L.on_switch([t for t in range(T) if on[t]]))
                     det = scene._place(det, sl, cfg)
-                    got = [bool(x) for x in det._calculate_on_list()]
+                    try:
+                        got = [bool(x) for x in det._calculate_on_list()]
+                    except Exception as e:  # noqa: BLE001
+                        if not L.is_repo_exception(e):
+                            raise
+                        got = f"raised {type(e).__name__}: {e}"
                     n += 1
                     if got != _thin(on, max(1, stride)) and bad is None:
                         bad = {"on": list(on), "stride": stride, "got": got, "expected": _thin(on, max(1, stride))}
@@ -399,11 +404,19 @@ def _plane_flux_task(nonuniform, sizes, fixed_axis, mode, nfreq=2):
             det = PhasorPoyntingFluxDetector(name=f"pp{direction}{int(keep)}", wave_characters=wcs, direction=direction, keep_all_components=keep, fixed_propagation_axis=fixed_axis, scaling_mode=mode, switch=L.on_switch())
             try:
                 det = det.place_on_grid(sl, cfg, L.key())
-            except ValueError as e:
+            except Exception as e:  # noqa: BLE001  placing a detector on a valid box must not fail
+                if not L.is_repo_exception(e):
+                    raise
                 failed.setdefault(keep, []).append(f"direction={direction}: {type(e).__name__}: {e}")
                 continue
             c.prove(f"components_all_six[{direction},all={keep}]", tuple(det.components) == L.COMPONENTS and det.reduce_volume is False)
-            out = det.compute_poynting_flux({"phasor": P})
+            # an explicitly fixed axis (0 included) wins over the shape; otherwise the size-one axis
+            ok, ax = L.guarded(f"no_exception_on_valid_input/propagation_axis[{direction},all={keep}]", lambda d=det: d.propagation_axis)
+            if ok:
+                c.prove(f"propagation_axis[{direction},all={keep}]", ax == p)
+            ok, out = L.guarded(f"no_exception_on_valid_input/compute_poynting_flux[{direction},all={keep}]", det.compute_poynting_flux, {"phasor": P})
+            if not ok:
+                continue
             sgn = 1 if direction == "+" else -1
             if keep:
                 c.prove(f"shape[{direction},all]", tuple(out.shape) == (nfreq, 3))
@@ -516,7 +529,20 @@ def _all_equal(name, X, Y):
 # ---------------------------------------------------------------------------------------
 
 
+class RealCodeRaised(Exception):
+    pass
+
+
 def _real_run(case, seed):
+    """-> (max relative deviation, detail); an exception raised by the detector under test on this valid
+    use counts as an infinite deviation (the detail carries the exception)"""
+    try:
+        return _real_run_inner(case, seed)
+    except RealCodeRaised as e:
+        return float("inf"), f"the real code raised on a valid input: {e} (case {case})"
+
+
+def _real_run_inner(case, seed):
     """REAL detectors, real JAX (float64/complex128): drive update over T steps behind the recorded-step
     gate with a random field history; compare with the DFT computed by numpy from the FieldDetector
     record of the same run.  -> (max relative deviation, detail)"""
@@ -564,18 +590,23 @@ def _real_run(case, seed):
         det = PhasorPoyntingFluxDetector(name="pp", direction=case.get("direction", "+"), keep_all_components=bool(case.get("keep")), fixed_propagation_axis=case.get("fixed_axis"), **common)
     else:
         det = ClosedSurfacePhasorPoyntingFluxDetector(name="cs", orientation=case.get("orientation", "outward"), axes=case.get("axes"), **common)
-    try:
-        det = det.place_on_grid(sl, cfg, kk)
-    except Exception as e:  # noqa: BLE001
-        return float("inf"), f"{type(det).__name__}.place_on_grid raised {type(e).__name__}: {e}"
+    cls_name = type(det).__name__
+
+    def call(what, fn, *a):
+        try:
+            return fn(*a)
+        except Exception as e:  # noqa: BLE001
+            raise RealCodeRaised(f"{cls_name}.{what}: {type(e).__name__}: {e}") from e
+
+    det = call("place_on_grid", det.place_on_grid, sl, cfg, kk)
     ref = FieldDetector(name="fd", components=L.COMPONENTS, switch=sw, dtype=jnp.float64).place_on_grid(sl, cfg, kk)
-    st, rs = det.init_state(), ref.init_state()
+    st, rs = call("init_state", det.init_state), ref.init_state()
     hist = rng.normal(size=(T, 2, 3, *sizes))
     for t in range(T):
         tt = jnp.asarray(t, dtype=jnp.int32)
         E, H = jnp.asarray(hist[t, 0]), jnp.asarray(hist[t, 1])
         if bool(det._is_on_at_time_step_arr[t]):
-            st = det.update(tt, E, H, st, None, None)
+            st = call("update", det.update, tt, E, H, st, None, None)
         if bool(ref._is_on_at_time_step_arr[t]):
             rs = ref.update(tt, E, H, rs, None, None)
     # ---- the spec, from the FieldDetector record of the same run
@@ -620,7 +651,7 @@ def _real_run(case, seed):
         fa = case.get("fixed_axis")
         p = fa if fa is not None else list(sizes).index(1)
         sg = -1.0 if case.get("direction", "+") == "-" else 1.0
-        got = np.asarray(det.compute_poynting_flux(st))
+        got = np.asarray(call("compute_poynting_flux", det.compute_poynting_flux, st))
         if case.get("keep"):
             exp = np.stack([(Sv[:, cc] * area(cc)).sum(axis=(1, 2, 3)) for cc in range(3)], axis=1) * half * sg
         else:
@@ -635,7 +666,7 @@ def _real_run(case, seed):
             tot = tot + Sa[:, -1].sum(axis=(1, 2)) - Sa[:, 0].sum(axis=(1, 2))
         if case.get("orientation") == "inward":
             tot = -tot
-        dev = rel(np.asarray(det.compute_net_flux(st)), tot * half)
+        dev = rel(np.asarray(call("compute_net_flux", det.compute_net_flux, st)), tot * half)
         # the stored face phasors themselves (a size-one axis has a vanishing net flux whatever is stored)
         for kname, rec in st.items():
             a, side = int(kname[len("phasor_axis")]), kname.rsplit("_", 1)[1]
@@ -740,6 +771,13 @@ def _configs(tier, seed):
                 out[f"plane_flux/{gl}/{_lab(sizes)}/{'auto' if fa is None else f'fixed{fa}'}/{m}"] = _plane_flux_task(nonuni, sizes, fa, m)
     for sizes, fa in [((2, 2, 2), 0), ((1, 2, 3), 1), ((2, 1, 1), 2)]:
         out[f"plane_flux/rect/{_lab(sizes)}/fixed{fa}/continuous"] = _plane_flux_task(True, sizes, fa, "continuous")
+    # a fixed axis on planes NOT normal to it (the size-one axis must be ignored) and on the plane normal
+    # to it, for every axis (0 included), volumes and lines as well
+    fixed = [((2, 1, 3), 0), ((3, 2, 1), 0), ((1, 2, 3), 1), ((2, 3, 1), 1), ((1, 3, 2), 2), ((3, 1, 2), 2), ((1, 2, 2), 0), ((2, 1, 2), 1), ((2, 2, 1), 2), ((1, 1, 2), 0), ((2, 2, 2), 1), ((2, 1, 1), 0)]
+    for i, (sizes, fa) in enumerate(fixed):
+        for nonuni, gl in ((False, "uni"), (True, "rect")):
+            m = ("continuous", "pulse")[(i + int(nonuni)) % 2]
+            out.setdefault(f"plane_flux/{gl}/{_lab(sizes)}/fixed{fa}/{m}", _plane_flux_task(nonuni, sizes, fa, m))
     boxes = [((2, 2, 2), None), ((3, 2, 2), None), ((2, 1, 3), None), ((2, 3, 1), (0, 1)), ((1, 1, 1), (0, 1, 2)), ((2, 2, 1), (2,))]
     if thorough:
         boxes += [((3, 3, 3), None), ((1, 3, 2), None), ((3, 3, 2), (0, 2)), ((2, 2, 2), (1,))]
@@ -801,7 +839,10 @@ def _replay(key, obligation, witness):
         cfg = L.real_cfg(False, (2, 2, 2), time_steps=len(on))
         det = PhasorDetector(name="p", wave_characters=(WaveCharacter(wavelength=1e-6),), dft_subsample=stride, switch=OnOffSwitch(fixed_on_time_steps=[t for t, o in enumerate(on) if o]))
         det = scene._place(det, ((0, 1),) * 3, cfg)
-        got = [bool(x) for x in det._calculate_on_list()]
+        try:
+            got = [bool(x) for x in det._calculate_on_list()]
+        except Exception as e:  # noqa: BLE001
+            got = f"raised {type(e).__name__}: {e}"
         exp = _thin(on, max(1, stride))
         return got != exp, f"on={on} stride={stride}: real _calculate_on_list -> {got}, every stride-th active step -> {exp}"
     cases = []
